@@ -152,6 +152,10 @@ func vScenarioC04(rc *runCtx) {
 	if mode == "custom" {
 		chars, table = vGenEscapeTable(tp)
 		_ = table
+		if tp.Bool("c04.emptytable", 120) {
+			// a table that protects nothing is an announced table too
+			chars, table = [][]unicode{}, map[byte]byte{}
+		}
 		o.serverMain = func() int { return vCustomTrz(chars) }
 	}
 	x := newXferWorld(rc, o)
